@@ -63,7 +63,7 @@ THEOREMS = [_P + n for n in (
     "uncached_child_uncached_parent", "cached_hash_is_recomputed", "eq_iff_recomputed", "eq_iff_structure",
     "eq_different_class", "freeHash_collision_free", "freeHash_eval", "closure_needed",
     "negative_index_breaks_links", "negative_index_normalised_witness", "negative_index_normalised_ok",
-    "replace_by_own_child_leaves_husk", "generated_structure_ok",
+    "replace_by_own_child_leaves_husk", "generated_structure_ok", "primitive_classes_scalar_only",
 )]
 
 
@@ -832,6 +832,18 @@ def step(w: World, op: dict):
                                          f"({type(t.parent).__name__ if t.parent is not None else None}, {t.arg_key!r}, {t.index!r})")
                 new += val if isinstance(val, list) else [val]
                 new.append(t)
+        elif kind == "diff":
+            # diff() on two nodes (often SUB-trees of trees whose hashes are cached): it may cache hashes while it runs but must
+            # leave every tree, and every hash cache, as it found them
+            a, b = ref(op["a"]), ref(op["b"])
+            if a is None or b is None:
+                return "skip", None, sig
+            from sqlglot.diff import diff as _diff
+            before = dump(w.roots, False)
+            _diff(a, b, delta_only=bool(op.get("delta_only")))
+            if dump(w.roots, False) != before:
+                viol = ("readonly", "diff() changed its argument trees")
+            # (which caches it leaves filled is C09's business; here only the invariant counts: w.check() below)
         elif kind == "eq":
             a, b = ref(op["a"]), ref(op["b"])
             if a is None or b is None:
@@ -1043,6 +1055,8 @@ def gen_op(w: World, rng, opid: int) -> dict:
                 t = rng.choice(qs) if qs else t
             args = [rng.choice(COND_FRAGS) if rng.random() < 0.5 else rand_spec(rng, 1)] if name in ("and_", "or_") else []
             op.update(op="builder", t=nm(t), name=name, args=args, copy=cp)
+    elif rng.random() < 0.1:
+        op.update(op="diff", a=nm(t), b=nm(rng.choice(live_nodes)), delta_only=rng.random() < 0.3)
     else:
         op.update(op=rng.choice(["unnest", "flatten", "walk"]), t=nm(t))
     return op
@@ -1108,8 +1122,14 @@ def report_history(chk: Check, start, ops, cls, t_shrink=8.0):
 
 # ------------------------------------------------------------------------------------------ sweeps
 def all_dialects():
+    """the `Dialects` enum has no entry for every dialect module (e.g. singlestore): enum ∪ DIALECT_MODULE_NAMES"""
     from sqlglot.dialects.dialect import Dialects
-    return [d.value or None for d in Dialects]
+    import sqlglot.dialects as _d
+    names = [d.value or None for d in Dialects]
+    for m in sorted(getattr(_d, "DIALECT_MODULE_NAMES", ())):
+        if m not in names and m != "dialect":
+            names.append(m)
+    return names
 
 
 def tree_check(tree, with_real_hash=True):
@@ -1335,7 +1355,7 @@ def exh_alphabet():
             {"op": "set", "t": "s0.4", "k": "this", "val": _F}, {"op": "set", "t": "s0.4", "k": "this", "val": {"v": "none"}},
             {"op": "set", "t": "s0.3", "k": "this", "val": {"v": "scalar", "x": "B"}},
             {"op": "append", "t": "s0.1", "k": "expressions", "val": _F},
-            {"op": "copy", "t": "s0.1"},
+            {"op": "copy", "t": "s0.1"}, {"op": "diff", "a": "s0.1", "b": "s0.4"}, {"op": "diff", "a": "s0.0", "b": "s0.0"},
             {"op": "transform", "t": "s0.0", "fun": "lit2paren", "arg": "a", "copy": False},
             {"op": "replace_children", "t": "s0.1", "fun": "dup"}]
     return ops
@@ -1373,15 +1393,205 @@ def try_history(chk: Check, h, tag):
         report_history(chk, h["start"], h["ops"], r["cls"])
 
 
+# ------------------------------------------------------------------------------------------ class coverage / rare constructs
+def all_expression_classes():
+    out, stack = set(), [exp.Expression]
+    while stack:
+        x = stack.pop()
+        for c in x.__subclasses__():
+            if c not in out:
+                out.add(c)
+                stack.append(c)
+    return sorted(out, key=lambda c: (c.__module__, c.__name__))
+
+
+# `Expr.__init__` skips `_set_parent` for classes with `is_primitive = True`: sound only while every arg of such a class
+# is a scalar. These are the scalar args of the primitive classes (pinned in Properties/C08 `primitive_classes_scalar_only`).
+PRIMITIVE_SCALAR_ARGS = ("this", "quoted", "global_", "temporary", "is_string", "is_bytes", "is_integer")
+
+
+def build_instance(cls, variant):
+    """an instance built through the constructor with EVERY arg of arg_types filled: 'one' = a child node per arg,
+    'many' = a list of two children per arg, 'mixed' = lists for list-like keys, children otherwise"""
+    def child(i):
+        return [exp.Literal.number(i), exp.column("c%d" % i), exp.to_identifier("i%d" % i), exp.Literal.string("s%d" % i)][i % 4]
+    kw = {}
+    for i, k in enumerate(cls.arg_types):
+        if getattr(cls, "is_primitive", False) and k in PRIMITIVE_SCALAR_ARGS:
+            kw[k] = "x%d" % i if k == "this" else True   # the documented scalar payload of a primitive (leaf) class
+            continue
+        listy = k in ("expressions", "joins", "laterals", "pivots", "ifs", "order", "partition_by", "actions", "options",
+                      "properties", "hints", "with_", "windows", "settings", "params", "keys", "values", "fields") or k == cls.var_len_arg_key
+        if variant == "many" or (variant == "mixed" and listy):
+            kw[k] = [child(2 * i), child(2 * i + 1)]
+        else:
+            kw[k] = child(i)
+    return cls(**kw)
+
+
+def edit_probe(tree, limit=12):
+    """hash the tree, edit a leaf, the root's hash must follow (a child whose parent link is missing cannot invalidate upwards)"""
+    n_done = 0
+    for n in nodes(tree):
+        if n is tree or n_done >= limit:
+            continue
+        v = n.args.get("this")
+        if isinstance(v, str) and not any(isinstance(x, (Expr, list)) for x in n.args.values()):
+            hash(tree)
+            n.set("this", v + "q")
+            n_done += 1
+            fh = fresh_hash(tree)
+            if fh is not None and hash(tree) != fh:
+                return "stale-hash", (f"after hash(root), {type(n).__name__}.set('this', …) on a node stored under "
+                                      f"{type(n.parent).__name__ if n.parent is not None else None}: the root's cached hash is stale")
+    return None
+
+
+def class_case(name, variant):
+    """returns (stage, class, text) or None"""
+    cls = next((c for c in all_expression_classes() if c.__name__ == name), None)
+    if cls is None:
+        raise UnknownOp(name)
+    try:
+        node = build_instance(cls, variant)
+    except Exception:  # noqa: BLE001
+        return None
+    stages = [("constructed", lambda: node)]
+    stages.append(("copied", lambda: node.copy()))
+
+    def edited():
+        k = next(iter(cls.arg_types), None)
+        if k is None:
+            return node
+        node.set(k, exp.Literal.number(7))
+        if not node._hash_raw_args:
+            node.append(cls.var_len_arg_key if variant != "one" else k, exp.Literal.number(8))
+        return node
+    for stage, mk in stages + [("edited", edited)]:
+        try:
+            t = mk()
+            v = tree_check(t)
+            if v is None and stage != "copied":
+                v = edit_probe(t, 4)
+        except Exception:  # noqa: BLE001 — odd classes may refuse odd children; C05's business
+            continue
+        if v:
+            return stage, v[0], v[1]
+    return None
+
+
+def sweep_classes(chk: Check, deadline) -> int:
+    n = 0
+    for cls in all_expression_classes():
+        for variant in ("mixed", "one", "many"):
+            if time.time() > deadline or len(chk.violations) >= 3:
+                return n
+            n += 1
+            r = class_case(cls.__name__, variant)
+            chk.count("class-variant:" + variant)
+            if r:
+                stage, vc, what = r
+                chk.report_violation(f"class:{cls.__name__}|{stage}|{vc}", f"{cls.__name__}({variant} children) {stage}: {what}",
+                                     {"kind": "class", "cls": cls.__name__, "variant": variant}, context={"class": cls.__name__})
+    chk.case(("classes", n), nontrivial=True)
+    return n
+
+
+# a repo-independent corpus of rarely used constructs per dialect (parse errors are skipped)
+RARE_SQL = [
+    ("postgres", "SELECT U&'d!0061t' UESCAPE '!'"), ("presto", "SELECT U&'d!0061t' UESCAPE '!'"), ("trino", "SELECT U&'\\0061'"),
+    ("postgres", "SELECT E'a\\nb', B'101', X'1F'"), ("mysql", "SELECT N'x', _utf8'x', b'01', x'AF', 0xAF"),
+    ("bigquery", "SELECT r'a\\b', b'abc', rb'x'"), ("spark", "SELECT X'1C', r'raw'"), ("snowflake", "SELECT $$dollar$$"),
+    ("oracle", "SELECT /*+ INDEX(t idx) LEADING(t u) */ a FROM t JOIN u ON t.a = u.a"),
+    ("spark", "SELECT /*+ BROADCAST(t), REPARTITION(3) */ a FROM t"), ("mysql", "SELECT /*+ MAX_EXECUTION_TIME(10) */ a FROM t USE INDEX (i)"),
+    ("snowflake", "SELECT * FROM t PIVOT(SUM(a) FOR b IN ('x', 'y')) AS p"), ("spark", "SELECT * FROM t UNPIVOT (v FOR k IN (a, b))"),
+    ("bigquery", "SELECT * FROM t PIVOT(SUM(a) AS s, COUNT(*) AS c FOR b IN ('x' AS x1, 'y'))"),
+    ("snowflake", "SELECT * FROM t MATCH_RECOGNIZE (PARTITION BY a ORDER BY b MEASURES FIRST(c) AS fc ONE ROW PER MATCH "
+                  "AFTER MATCH SKIP PAST LAST ROW PATTERN (x y+) DEFINE y AS c > 1)"),
+    ("oracle", "SELECT * FROM JSON_TABLE(j, '$.a[*]' COLUMNS (x NUMBER PATH '$.x', NESTED PATH '$.b[*]' COLUMNS (y VARCHAR2(10) PATH '$.y')))"),
+    ("mysql", "SELECT * FROM JSON_TABLE(j, '$[*]' COLUMNS (x INT PATH '$.x' DEFAULT '0' ON EMPTY)) AS jt"),
+    ("hive", "SELECT a, e FROM t LATERAL VIEW OUTER EXPLODE(arr) tbl AS e"), ("bigquery", "SELECT x, off FROM UNNEST([1, 2]) AS x WITH OFFSET AS off"),
+    ("bigquery", "SELECT * FROM UNNEST(arr) WITH OFFSET"), ("duckdb", "SELECT {'a': 1, 'b': x} AS s, [1, 2][1], MAP {'k': 1}"),
+    ("duckdb", "SELECT * FROM t ASOF JOIN u ON t.ts >= u.ts"), ("duckdb", "PIVOT t ON a USING SUM(b)"),
+    ("tsql", "SELECT a INTO #tmp FROM t"), ("postgres", "SELECT a INTO TEMPORARY tmp FROM t"), ("tsql", "SELECT TOP 3 WITH TIES a FROM t ORDER BY a"),
+    ("tsql", "SELECT a FROM t FOR XML PATH('x'), ROOT('r')"), ("oracle", "SELECT a FROM t START WITH p IS NULL CONNECT BY NOCYCLE PRIOR id = p"),
+    ("snowflake", "SELECT a FROM t QUALIFY ROW_NUMBER() OVER (PARTITION BY b ORDER BY c) = 1"),
+    ("postgres", "SELECT SUM(a) FILTER (WHERE b > 1), PERCENTILE_CONT(0.5) WITHIN GROUP (ORDER BY a) FROM t"),
+    ("bigquery", "SELECT FIRST_VALUE(a IGNORE NULLS) OVER (ORDER BY b ROWS BETWEEN 1 PRECEDING AND UNBOUNDED FOLLOWING) FROM t"),
+    ("postgres", "SELECT a FROM t TABLESAMPLE BERNOULLI (10) REPEATABLE (1)"), ("hive", "SELECT a FROM t TABLESAMPLE (BUCKET 1 OUT OF 4 ON a)"),
+    ("postgres", "SELECT a FROM t GROUP BY GROUPING SETS ((a), (a, b), ()), ROLLUP (c), CUBE (d)"),
+    ("postgres", "INSERT INTO t (a) VALUES (1) ON CONFLICT (a) DO UPDATE SET a = EXCLUDED.a RETURNING a"),
+    ("snowflake", "MERGE INTO t USING s ON t.a = s.a WHEN MATCHED AND s.b > 1 THEN UPDATE SET t.b = s.b WHEN NOT MATCHED THEN INSERT (a) VALUES (s.a)"),
+    ("hive", "INSERT OVERWRITE TABLE t PARTITION (ds = '1') SELECT a FROM s"), ("spark", "SELECT TRANSFORM(arr, x -> x + 1), AGGREGATE(arr, 0, (acc, x) -> acc + x)"),
+    ("postgres", "SELECT a AT TIME ZONE 'UTC', INTERVAL '1 day 2 hours', CAST(a AS NUMERIC(10, 2)), a::INT[] FROM t"),
+    ("postgres", "CREATE TABLE t (a INT PRIMARY KEY, b TEXT NOT NULL DEFAULT 'x' CHECK (b <> ''), c INT REFERENCES u (c) ON DELETE CASCADE, "
+                 "d INT GENERATED ALWAYS AS IDENTITY, UNIQUE (a, b)) PARTITION BY RANGE (a)"),
+    ("mysql", "CREATE TABLE t (a INT AUTO_INCREMENT, b VARCHAR(10) CHARACTER SET utf8 COLLATE utf8_bin COMMENT 'c', KEY k (b)) ENGINE=InnoDB"),
+    ("bigquery", "CREATE OR REPLACE TABLE d.t PARTITION BY DATE(ts) CLUSTER BY a OPTIONS (description='x') AS SELECT 1 AS a"),
+    ("snowflake", "CREATE TABLE t CLONE s AT (TIMESTAMP => '2020-01-01'::TIMESTAMP)"), ("postgres", "ALTER TABLE t ADD COLUMN a INT, DROP COLUMN b, ALTER COLUMN c SET DEFAULT 1"),
+    ("clickhouse", "SELECT a FROM t FINAL SAMPLE 0.1 ARRAY JOIN arr AS x PREWHERE b > 1 LIMIT 1 BY a SETTINGS max_threads = 1"),
+    ("clickhouse", "SELECT quantile(0.5)(a), {p: UInt8}, a ? b : c FROM t"), ("redshift", "SELECT a FROM t WHERE b SIMILAR TO 'x%' AND c ILIKE ANY ('a', 'b')"),
+    ("oracle", "SELECT XMLTABLE('/a' PASSING x COLUMNS b VARCHAR2(5) PATH 'b') FROM t"), ("postgres", "SELECT a FROM t FOR UPDATE OF t SKIP LOCKED"),
+    ("postgres", "WITH RECURSIVE c (n) AS (SELECT 1 UNION ALL SELECT n + 1 FROM c WHERE n < 3) SEARCH DEPTH FIRST BY n SET o SELECT * FROM c"),
+    ("snowflake", "SELECT a:b.c[0]::STRING, GET_PATH(v, 'x') FROM t, LATERAL FLATTEN(input => v) f"), ("tsql", "SELECT a FROM t WITH (NOLOCK) OPTION (RECOMPILE)"),
+    ("bigquery", "SELECT STRUCT(1 AS a, 'x' AS b), ARRAY<INT64>[1], SAFE_CAST(a AS INT64 FORMAT 'x'), EXTRACT(WEEK(MONDAY) FROM d) FROM t"),
+    ("postgres", "SELECT JSON_OBJECT('a': 1 ABSENT ON NULL), JSON_ARRAYAGG(a ORDER BY a), a -> 'b' ->> 'c', a @> b FROM t"),
+    ("duckdb", "SELECT * EXCLUDE (a) REPLACE (b + 1 AS b), COLUMNS('x.*') FROM t"), ("presto", "SELECT TRY(a), a IS DISTINCT FROM b, ROW(1, 2), CAST(ROW(1) AS ROW(x INT)) FROM t"),
+    ("spark", "SELECT a FROM t DISTRIBUTE BY a SORT BY b CLUSTER BY c"), ("snowflake", "COPY INTO t FROM @s FILE_FORMAT = (TYPE = CSV) PATTERN = '.*'"),
+    ("", "SELECT CASE a WHEN 1 THEN 'x' ELSE 'y' END, a BETWEEN 1 AND 2, EXISTS (SELECT 1), a IN (SELECT b FROM u), NOT a, -a, a || b FROM t"),
+]
+
+
+def parse_rare():
+    out = []
+    for d, sql in RARE_SQL:
+        try:
+            for t in sqlglot.parse(sql, dialect=d or None):
+                if t is not None:
+                    out.append((d or None, sql, t))
+        except Exception:  # noqa: BLE001
+            continue
+    return out
+
+
+def sweep_rare(chk: Check, deadline) -> int:
+    import logging
+    logging.getLogger("sqlglot").setLevel(logging.ERROR)  # "falling back to Command" warnings are not findings
+    n = 0
+    for i, (d, sql) in enumerate(RARE_SQL):
+        if time.time() > deadline or len(chk.violations) >= 3:
+            break
+        try:
+            trees = [t for t in sqlglot.parse(sql, dialect=d or None) if t is not None]
+        except Exception:  # noqa: BLE001
+            chk.count("rare:parse-error")
+            continue
+        for t in trees:
+            n += 1
+            chk.count("rare:parsed")
+            v = tree_check(t) or edit_probe(t)
+            if v is None:
+                c = t.copy()
+                v = tree_check(c)
+            if v:
+                chk.report_violation(f"parse:{d or 'base'}|{v[0]}", f"parse_one({sql!r}, dialect={d!r}): {v[1]}",
+                                     {"kind": "rare", "i": i, "sql": sql, "dialect": d or None}, context={"dialect": d or "base"})
+                break
+    return n
+
+
 def search(chk: Check, hints: list, budget_s: float) -> None:
     t0 = time.time()
     rng = chk.rng
     gen = SqlGen(rng)
+    n_rare = sweep_rare(chk, t0 + budget_s * 0.1)
+    n_cls = sweep_classes(chk, t0 + budget_s * chk.pick(0.25, 0.15))
     for h in CORPUS + list(hints or []):
         try_history(chk, h, "hint")
-    exh = exhaustive(chk, chk.pick(2, 3), t0 + budget_s * chk.pick(0.2, 0.3))
+    t1 = time.time()
+    exh = exhaustive(chk, chk.pick(2, 3), t1 + budget_s * chk.pick(0.2, 0.3))
     n_hist = n_ops = found = 0
-    t_hist = t0 + budget_s * 0.55
+    t_hist = t0 + budget_s * 0.6
     max_ops = chk.pick(40, 60)
     while time.time() < t_hist and len(chk.violations) < 3:
         start = rand_start(rng, gen)
@@ -1397,10 +1607,11 @@ def search(chk: Check, hints: list, budget_s: float) -> None:
     dialects = [d for d in all_dialects() if d]
     if chk.quick:
         dialects = rng.sample(dialects, 10)
-    n_parse = sweep_parse(chk, gen, dialects, t0 + budget_s * 0.70)
+    n_parse = sweep_parse(chk, gen, dialects, t0 + budget_s * 0.75)
     n_rules = sweep_rules(chk, gen, t0 + budget_s)
     chk.search_info = {"ran": True, "budget_s": budget_s, "histories": n_hist, "ops": n_ops, "violating_histories": found, "exhaustive": exh,
                        "parse_trees": n_parse, "dialects": len(dialects) + 1, "rule_pipelines": n_rules,
+                       "class_instances": n_cls, "rare_statements": n_rare,
                        "elapsed_s": round(time.time() - t0, 1),
                        "oracle": "after every public op: links/shared/stale-hash/closure over every live tree (own arg walk, hashes recomputed "
                                  "from scratch), == iff same normalised structure; same checker on parse_one output and after every optimizer rule"}
@@ -1567,6 +1778,11 @@ def translate(chk) -> str:
     lines.append("/-- does `set` normalise a negative index before removing a list element? (model variant selector, see "
                  "Properties/C08 `negative_index_breaks_links`) -/")
     lines.append(f"def negativeIndexNormalised : Bool := {'true' if neg_norm else 'false'}")
+    prim = sorted((c.key, sorted(c.arg_types)) for c in _all_subclasses(exp.Expr) if getattr(c, "is_primitive", False))
+    chk.cov["primitive_classes"] = {k: a for k, a in prim}
+    lines.append("/-- classes with `is_primitive = True` (whose `__init__` does not link children) and their arg names -/")
+    lines.append("def primitiveClasses : List (String × List String) := " + _lean_list(
+        "(" + _lean_str(k) + ", " + _lean_list(_lean_str(a) for a in args) + ")" for k, args in prim))
     lines.append("/-- classes with `_hash_raw_args = True` -/")
     lines.append("def rawClasses : List String := " + _lean_list(_lean_str(r) for r in raw))
     lines.append("end SqlglotModel.Generated.C08")
@@ -2248,6 +2464,16 @@ def replay(path: str) -> int:
             return 1
         print("replay: holds")
         return 0
+    if r.get("kind") == "class":
+        v = class_case(r["cls"], r["variant"])
+        print("replay:", f"VIOLATES: {r['cls']}({r['variant']}) {v[0]}: {v[1]}: {v[2]}" if v else "holds")
+        return 1 if v else 0
+    if r.get("kind") == "rare":
+        v = None
+        for t in sqlglot.parse(r["sql"], dialect=r.get("dialect")):
+            v = v or (tree_check(t) or edit_probe(t))
+        print("replay:", f"VIOLATES: parse({r['sql']!r}, dialect={r.get('dialect')!r}): {v[0]}: {v[1]}" if v else "holds")
+        return 1 if v else 0
     if r.get("kind") == "parse":
         t = parse_quiet(r["sql"], r.get("dialect"))
         v = t is not None and tree_check(t)
